@@ -469,14 +469,19 @@ def C03():
     }
 
 
+def surj_static():
+    from kit.enum_static import SurjStatic
+    return SurjStatic()
+
+
 def C06():
     gn = gen_native()
     return {
-        'level': 'exploration', 'parts': [gn], 'samples': [], 'own_classes': C06_CLASSES,
+        'level': 'exploration', 'parts': [gn, surj_static()], 'samples': [], 'own_classes': C06_CLASSES,
         'assumptions': [
-            'bounded: programs are the probe theories without non-surjective conclusions (p1, p2, p3, p4, p6; detected from the flat-rule comments of the emitted module); operation sequences over 3 elements per type; never counted as proof',
+            'bounded: programs are the probe theories without non-surjective conclusions (p1, p2, p3, p4, p6, p7, p8, p9, p10, p11, pz, pz_q; detected from the flat-rule comments of the emitted module); operation sequences over 3 elements per type; never counted as proof',
             'decided: close()/close_until() allocate no element ids (hence the number of classes cannot grow); termination is only observed -- every explored run returned (a diverging run would make the check time out = UNDECIDED, never an alarm)',
-            'the compile-time surjectivity check (eqlog.eql rules evaluated by generated code) is not covered',
+            'compile-time half, bounded (part surj_static): 8 programs without `!` whose conclusion needs an element the premise does not provide must be rejected with a diagnostic, 7 neighbours (term bound in the premise, an equation giving an undefined application an existing value -- also exercised at run time by probe p11 --, the same rule with `!`) must be accepted; expectations come from the statement; the surjectivity analysis itself (eqlog.eql rules evaluated by generated code) is not under contract',
         ],
     }
 
@@ -560,7 +565,7 @@ def C18():
 
 PROPERTIES = {'C02': C02, 'C15': C15, 'C09': C09, 'C19': C19, 'C13': C13, 'C20': C20, 'C01': C01, 'C03': C03, 'C04': C04, 'C05': C05, 'C06': C06, 'C07': C07, 'C14': C14, 'C08': C08, 'C16': C16, 'C18': C18, 'C11': C11}
 
-NATIVES = {'uf_0': lambda: uf_native(0), 'uf_1': lambda: uf_native(1), 'rt_wb': lambda: rt_native('wb'), 'rt_pt': lambda: rt_native('pt'), 'rt_ts': lambda: rt_native('ts'), 'sn': sn_native, 'sd': sd_native, 'gen': gen_native, 'emit_sn': emit_sn, 'gen_twice': GenTwice, 'compile_twice': compile_twice, 'gen_both_builds': GenBothBuilds, 'compile_ok': compile_ok, 'uf_deep_0': lambda: UfDeep(0), 'uf_deep_1': lambda: UfDeep(1), 'enum_static': enum_static}
+NATIVES = {'uf_0': lambda: uf_native(0), 'uf_1': lambda: uf_native(1), 'rt_wb': lambda: rt_native('wb'), 'rt_pt': lambda: rt_native('pt'), 'rt_ts': lambda: rt_native('ts'), 'sn': sn_native, 'sd': sd_native, 'gen': gen_native, 'emit_sn': emit_sn, 'gen_twice': GenTwice, 'compile_twice': compile_twice, 'gen_both_builds': GenBothBuilds, 'compile_ok': compile_ok, 'uf_deep_0': lambda: UfDeep(0), 'uf_deep_1': lambda: UfDeep(1), 'enum_static': enum_static, 'surj_static': surj_static}
 
 
 def replay(pid, path):
